@@ -152,7 +152,8 @@ class Pool:
             if val == 1:
                 deserializer(Conversion(m.X, source=int, target=m.X))
             elif val == 2:
-                deserializer(Conversion(lambda s: m.X(len(s)), source=str, target=m.X))
+                # a recursive conversion: X from a list of X (the type becomes recursive)
+                deserializer(Conversion(lambda xs: m.X(len(xs)), source=List_of(m.X), target=m.X))
             else:
                 reset_deserializers(m.X)
         elif knob == "rg.ser_X":
@@ -165,6 +166,12 @@ class Pool:
         elif knob == "rg.fields_K":
             if val == 1:
                 set_object_fields(m.K, [ObjectField("a_b", int, required=True), ObjectField("s", str, False, default="z")])
+            elif val == 2:
+                # a self-referencing field: the class becomes recursive
+                from typing import Optional
+
+                set_object_fields(m.K, [ObjectField("a_b", int, required=True),
+                                        ObjectField("s", Optional[m.K], False, default=None)])
             else:
                 set_object_fields(m.K, None)
         elif knob == "rg.type_name_K":
@@ -238,8 +245,8 @@ class Pool:
               "UIS": Union[int, str], "USI": Union[str, int], "LX": List_of(m.X)}[tname]
         datas = {
             "K": [{"a_b": 1, "n": None, "s": "y"}, {"a_b": -1, "zz": 0}, {"aB": 2, "A_B": 3, "p_a_b": 4, "s": 1},
-                  {"a_b": "one", "n": 3}, {"a_b": 9}, {}],
-            "X": [1, "abc", None], "H": [{"x": 1}, {"x": "ab"}], "LX": [[1, 2], ["a"]],
+                  {"a_b": "one", "n": 3}, {"a_b": 9}, {}, {"a_b": 1, "s": {"a_b": 2, "s": None}}],
+            "X": [1, "abc", None, [[], [[]]]], "H": [{"x": 1}, {"x": "ab"}], "LX": [[1, 2], ["a"]],
             "Base": [{"kind": "Sub1", "i": 1, "p": 2}, {"kind": "Sub2"}, {"i": 3}],
             "NT": [4, 6, 1], "FS": [{"a": 1}, {}], "R": [{"v": 1, "nxt": {"v": 2}}],
             "UIS": ["1", 1], "USI": ["1", 1],
@@ -328,7 +335,7 @@ KNOBS: Dict[str, dict] = {
     "bs.field": {"vals": [0, 1], "mech": "plainattr"},
     "rg.deser_X": {"vals": [0, 1, 2], "mech": {0: "delitem", 1: "setitem", 2: "setitem"}},
     "rg.ser_X": {"vals": [0, 1, 2], "mech": {0: "delitem", 1: "setitem", 2: "setitem"}},
-    "rg.fields_K": {"vals": [0, 1], "mech": {0: "delitem", 1: "setitem"}},
+    "rg.fields_K": {"vals": [0, 1, 2], "mech": {0: "delitem", 1: "setitem", 2: "setitem"}},
     "rg.type_name_K": {"vals": [1, 2], "mech": "setitem"},
     "rg.schema_K": {"vals": [1, 2], "mech": "plaindict"},
     "rg.schema_NT": {"vals": [1, 2], "mech": "plaindict"},
